@@ -196,6 +196,9 @@ func init() {
 				Logger:           nullLogger(),
 				UnixSocketConfig: &plugin.UnixSocketConfig{TempDir: os.Getenv("TMPDIR")},
 			}
+			if p["allow"] == "netrpc" { // a host that allows net/rpc only (the default when AllowedProtocols is left empty)
+				cfg.AllowedProtocols = nil
+			}
 			if hs.legacy >= 0 {
 				cfg.ProtocolVersion = uint(hs.legacy)
 				cfg.Plugins = mkSet("host", hs.legacy, true, "netrpc")
@@ -301,7 +304,12 @@ func init() {
 			if pproto != wantProto {
 				x.Fail("S", "plugin announced protocol %q, the chosen set's is %q [%s]", pproto, wantProto, desc)
 			}
-			if H[pver] {
+			if H[pver] && p["allow"] == "netrpc" && pproto == "grpc" {
+				// the versions agree but the chosen set speaks a protocol this host does not allow: Start must fail (C14's matter)
+				if err == nil {
+					x.Fail("S", "Start succeeded with a protocol the host does not allow [%s]", desc)
+				}
+			} else if H[pver] {
 				if err != nil {
 					x.Fail("S", "host offers the announced version %d but Start failed: %v [%s]", pver, err, desc)
 				} else {
@@ -372,6 +380,16 @@ func init() {
 								}
 							}
 						}
+					}
+				}
+			}
+			// hosts that allow net/rpc only, against plugins whose sets speak gRPC / mixed protocols: a version mismatch is still
+			// reported as a version mismatch
+			small := allSides([]int{1, 2})
+			for _, h := range small {
+				for _, pl := range small {
+					for _, c := range [][2]string{{"1", "grpc"}, {"1", "alt"}} {
+						out = append(out, explore.Params{"host": h.String(), "plug": pl.String(), "gs": c[0], "pa": c[1], "env": "sent", "rep": "0", "allow": "netrpc"})
 					}
 				}
 			}
